@@ -166,11 +166,11 @@ func init() {
 		Title:       "Passphrase files stand alone and bound the work they demand",
 		Level:       "exploration",
 		LevelText:   "Built with x/crypto/scrypt replaced (overlay) by a recording version, so that 'no key was derived' is an observable fact and a 2^30 work factor costs nothing. Enumerated completely: every recipient list of length 1..3/4 over 7 recipient kinds containing a passphrase recipient (Encrypt must succeed iff it is alone, zero bytes written otherwise); every header of 1..4/5 stanzas with a correct scrypt stanza at every position among 5 kinds of other stanzas; every (configured maximum 1..30 and default) x (work factor 1..31, 21 malformed spellings, 11 overflowing decimals congruent to small values) pair with the stanza sealed for the value a lenient parser would read, via Unwrap and via whole files.",
-		LevelNote:   "the recorder computes the real scrypt for N <= 2^12 and a consistent stand-in above; cmd/age's LazyScryptIdentity / EncryptedIdentity are exercised in C18/C15 through the CLI",
+		LevelNote:   "the recorder computes the real scrypt for N <= 2^12 and a consistent stand-in above; cmd/age's LazyScryptIdentity and EncryptedIdentity are driven in-process through a hook file added to package main at build time (skipped, and noted, if it does not compile on an edited tree)",
 		Technique:   "bounded-exhaustive configuration/input enumeration on the implementation with an instrumented (recording) KDF and an invariant oracle",
 		Rule:        "enumerate recipient lists, stanza arrangements and (maximum, work-factor spelling) pairs; oracle on Encrypt/Unwrap/Decrypt results, bytes written and the log of scrypt.Key calls. distinct_nontrivial counts distinct configurations.",
 		Assumptions: commonAssume,
-		Runs:        []Run{{Pkg: hp + "c10", Variant: "scryptrec"}},
+		Runs:        []Run{{Pkg: hp + "c10", Variant: "scryptrec"}, {Pkg: "cmd/age", Variant: "mainhook+scryptrec", Optional: true, Env: []string{"VERIF_HARNESS=c10cli", "VERIF_PROPERTY=C10"}}},
 	}
 }
 
